@@ -2045,6 +2045,23 @@ def do_spawn(fsic, parties, party, op, ctx, classes, class_before, spec):
         check_backrefs(y, a, ctx, 'C11', f'spawn/{route}', party.unique)
         if ctx.counters.get('steps', 0) >= 5:
             ctx.probe('copy-after>=5-operations')
+    if route == 'sibling':
+        # a new instance starts from what its class declares - not from what another instance of the class has since made
+        # of its own lists and alias map
+        yd_, cls_ = y.__dict__, type(y)
+        for attr_, decl_ in (('check', 'CHECK'), ('endogenous', 'ENDOGENOUS'), ('preferred_names', 'PREFERRED_NAMES')):
+            if isinstance(yd_.get(attr_), list) and hasattr(cls_, decl_):
+                ctx.check('C11', f'spawn/sibling/starts-from-the-class/{attr_}', list(yd_[attr_]) == list(getattr(cls_, decl_)), {'got': canon(list(yd_[attr_])), 'class': canon(list(getattr(cls_, decl_)))})
+        if isinstance(yd_.get('aliases'), dict) and isinstance(getattr(cls_, 'ALIASES', None), dict):
+            decl_ = dict(cls_.ALIASES)
+
+            def res_(k_, lim_=12):
+                while k_ in decl_ and decl_[k_] != k_ and lim_:
+                    k_, lim_ = decl_[k_], lim_ - 1
+                return k_
+
+            want_ = {k_: res_(k_) for k_ in decl_ if res_(k_) != k_}
+            ctx.check('C11', 'spawn/sibling/starts-from-the-class/aliases', dict(yd_['aliases']) == want_, {'got': canon(sorted(map(str, yd_['aliases']))), 'class': canon(sorted(map(str, want_)))})
     if len(parties) >= MAXP:
         return 'checked-not-kept'
     if route == 'sibling':
